@@ -178,7 +178,10 @@ func consistentWithDraw(elig []hostW, u url.URL, r float64) bool {
 		}
 		if r*T == 0 {
 			// T == 0: the first eligible entry visited is taken; r == 0 < T: the first one with weight
-			return T == 0 || e.w > 0
+			if T == 0 || e.w > 0 {
+				return true
+			}
+			continue
 		}
 		if e.w == 0 {
 			continue // passed over while the eligible total is positive
